@@ -48,6 +48,15 @@ REGISTRY["C10"] = _m["C10"]
 REGISTRY["C11"] = _m["C11"]
 REGISTRY["C20"] = _load("bqsim")
 
+
+def _load_entry(engine):
+    ns = {}
+    exec(open(_os.path.join(_here, engine, "REGISTRY_ENTRY.py")).read(), ns)
+    return ns["ENTRY"]
+
+
+REGISTRY["C09"] = _load_entry("storesim")
+
 _LEDGER_COMPONENTS = {
     "real": ["pkg/core.Blockchain incl. Run() loop, persist timer, GC, notification dispatcher (one instance per node)",
              "pkg/core/dao, native contracts, interop layer, VM, mempool, stateroot module, MPT",
